@@ -78,13 +78,21 @@ class ProgKeyboardInterrupt(KeyboardInterrupt):
 
 
 PROG_TYPES = {"E": ProgError, "A": ProgErrorA, "B": ProgErrorB, "K": ProgKeyError,
-              "assert": ProgAssertion, "exit": ProgSystemExit, "kbd": ProgKeyboardInterrupt}
-PROG_CLASSES = tuple(PROG_TYPES.values())
+              "assert": AssertionError, "exit": SystemExit, "kbd": KeyboardInterrupt,
+              "assert_sub": ProgAssertion, "exit_sub": ProgSystemExit,
+              "kbd_sub": ProgKeyboardInterrupt}
+PROG_CLASSES = (ProgError, ProgKeyError, ProgAssertion, ProgSystemExit, ProgKeyboardInterrupt)
 PRIVILEGED = (SystemExit, KeyboardInterrupt, AssertionError)
+PRIVILEGED_NAMES = ("AssertionError", "SystemExit", "KeyboardInterrupt", "ProgAssertion",
+                    "ProgSystemExit", "ProgKeyboardInterrupt")
 
 
 def is_prog(exc):
-    return isinstance(exc, PROG_CLASSES)
+    """Was this exception object raised by a generated program (not by usim or Python)?"""
+    if isinstance(exc, PROG_CLASSES):
+        return True
+    return type(exc) in PRIVILEGED and len(exc.args) == 2 and exc.args[1] == "prog" \
+        and isinstance(exc.args[0], int)
 
 
 def is_signal(exc):
@@ -115,6 +123,7 @@ class World:
         self.task_name = {}    # id(Task) -> actor name   (tasks pinned in self.tasks)
         self.scopes = {}       # label -> Scope
         self.scope_label = {}  # id(Scope) -> label
+        self.scope_children = {}   # label -> [child actor names]
         self.root_scope = None
         self.serial = 0
         self.junk = []
@@ -142,7 +151,7 @@ class World:
             return None
         name = type(exc).__name__
         if is_prog(exc):
-            return (name, exc.serial)
+            return (name, exc.args[0])
         if isinstance(exc, Concurrent):
             return ("Concurrent",) + tuple(self.meta(c) for c in exc.children)
         if isinstance(exc, CancelTask):
@@ -324,7 +333,7 @@ class World:
             if "ret" in spec:
                 return spec["ret"]
 
-    def spawn(self, scope, spec, parent):
+    def spawn(self, scope, spec, parent, label=None):
         """Start an actor as a child task of ``scope``; returns the Task."""
         name = spec["name"]
         cage = spec.get("cage")
@@ -352,7 +361,9 @@ class World:
             self.tasks["cage:" + name] = task
             self.task_name[id(task)] = "cage:" + name
             self.seam.register(getattr(task, "__runner__", None), "cage:" + name)
-        self.log(parent, "spawn", name)
+        self.log(parent, "spawn", name, label, bool(spec.get("volatile")))
+        if label is not None:
+            self.scope_children.setdefault(label, []).append(name)
         return task
 
     async def _cage_body(self, spec):
@@ -371,6 +382,7 @@ class World:
             self.tasks[name] = task
             self.task_name[id(task)] = name
             self.seam.register(getattr(task, "__runner__", None), name)
+            self.log("cage:" + name, "spawn", name, "cage:" + name, False)
         self.log("cage:" + name, "cage.exit")
 
     async def root(self):
@@ -383,7 +395,7 @@ class World:
             self.scopes["root"] = scope
             self.scope_label[id(scope)] = "root"
             for spec in self.scenario.get("actors", ()):
-                self.spawn(scope, spec, "root")
+                self.spawn(scope, spec, "root", "root")
         self.log("root", "root.exit")
 
     # ---- op interpreter ---------------------------------------------------------------
@@ -427,12 +439,16 @@ class World:
         cls = PROG_TYPES[op.get("type", "E")]
         self.raised[serial] = (cls.__name__, a)
         self.log(a, "raise", cls.__name__, serial)
-        raise cls(serial, op.get("tag", ""))
+        raise cls(serial, "prog")
 
     async def op_try(self, a, op):
         try:
             await self.run_ops(a, op["body"])
-        except (Exception, Concurrent) as err:
+        except BaseException as err:
+            if is_signal(err) or isinstance(err, HarnessAbort):
+                raise
+            if not op.get("all") and not isinstance(err, (Exception, Concurrent)):
+                raise
             self.log(a, "caught", self.meta(err))
             await self.run_ops(a, op.get("handler", ()))
 
@@ -621,7 +637,7 @@ class World:
                 self.log(a, "scope.in", label)
                 try:
                     for child in op.get("children", ()):
-                        self.spawn(scope, child, a)
+                        self.spawn(scope, child, a, label)
                     await self.run_ops(a, op.get("body", ()))
                 except BaseException as err:
                     self.log(a, "scope.body!", label, self.meta(err))
@@ -630,9 +646,19 @@ class World:
                     self.log(a, "scope.body-", label)
         except BaseException as err:
             self.log(a, "scope!", label, self.meta(err))
+            self._log_children(a, label)
             raise
         else:
             self.log(a, "scope-", label)
+            self._log_children(a, label)
+
+    def _log_children(self, a, label):
+        states = []
+        for name in self.scope_children.get(label, ()):
+            task = self.tasks.get(name)
+            if task is not None:
+                states.append((name, task.status.name, bool(task.done)))
+        self.log(a, "scope.children", label, tuple(states))
 
     async def op_spawn(self, a, op):
         scope = self.scopes.get(op["into"])
@@ -641,7 +667,7 @@ class World:
             self.log(a, "spawn.noscope", op["into"], spec["name"])
             return
         try:
-            self.spawn(scope, spec, a)
+            self.spawn(scope, spec, a, op["into"])
         except Exception as err:
             if ScopeClosed is not None and isinstance(err, ScopeClosed):
                 self.log(a, "spawn.refused", op["into"], spec["name"])
